@@ -156,6 +156,21 @@ func cmdParfacts(args []string) error {
 			return true
 		})
 	}
+	// the stages of queryPlan.Execute, in the order in which their calls stand in the body
+	var stages []string
+	if ex := pl.fn("*queryPlan", "Execute"); ex != nil {
+		rn := ex.Recv.List[0].Names[0].Name
+		ast.Inspect(ex.Body, func(n ast.Node) bool {
+			if c, ok := n.(*ast.CallExpr); ok {
+				if sel, ok := c.Fun.(*ast.SelectorExpr); ok {
+					if id, ok := sel.X.(*ast.Ident); ok && id.Name == rn {
+						stages = append(stages, sel.Sel.Name)
+					}
+				}
+			}
+			return true
+		})
+	}
 	var b strings.Builder
 	b.WriteString("/- GENERATED by `bwh parfacts` from bql/planner/planner.go and bql/table/table.go — do not edit. -/\nnamespace BW.Generated\n\n")
 	fmt.Fprintf(&b, "/-- `Table.AddRow` holds the table's mutex for its whole body. -/\ndef addRowLocked : Bool := %v\n\n", addRow)
@@ -171,6 +186,14 @@ func cmdParfacts(args []string) error {
 	fmt.Fprintf(&b, "/-- `addSpecifiedData` assigns to a field of the plan. -/\ndef perRowWritesPlan : Bool := %v\n\n", writesPlan)
 	b.WriteString("/-- Lock()/RLock() statements of bql/planner/planner.go and bql/table/table.go that are not released on every path. -/\ndef unbalancedLocks : List String := [")
 	for i, u := range unbalanced {
+		if i > 0 {
+			b.WriteString(", ")
+		}
+		fmt.Fprintf(&b, "%q", u)
+	}
+	b.WriteString("]\n\n")
+	b.WriteString("/-- The methods `queryPlan.Execute` calls on the plan, in the order of its body. -/\ndef executeStages : List String := [")
+	for i, u := range stages {
 		if i > 0 {
 			b.WriteString(", ")
 		}
